@@ -84,7 +84,7 @@ func (l *baseLeaf) SetHeaderMatcher(m *HeaderMatcher) {
 		tree = tree.getParent()
 	}
 	for _, sibling := range tree.getLeaves() {
-		if sibling.getSegment() == l.parent.getSegment() && sibling.Route() == l.Route() {
+		if sibling.getSegment() != l.segment && sibling.Route() == l.Route() {
 			sibling.SetHeaderMatcher(m)
 		}
 	}
